@@ -10,6 +10,9 @@ pub enum Msg {
     Initialized,
     Supported,
     UnknownRequest,
+    /// an unknown request whose method starts with `$/` (must be answered like any other
+    /// unknown request: MethodNotFound)
+    DollarRequest,
     DocNotification,
     UnknownNotification,
     Shutdown,
@@ -20,6 +23,7 @@ pub const ALPHABET: &[Msg] = &[
     Msg::Initialized,
     Msg::Supported,
     Msg::UnknownRequest,
+    Msg::DollarRequest,
     Msg::DocNotification,
     Msg::UnknownNotification,
     Msg::Shutdown,
@@ -60,7 +64,7 @@ enum Phase {
 }
 
 pub fn is_request(m: Msg) -> bool {
-    matches!(m, Msg::Initialize | Msg::Supported | Msg::UnknownRequest | Msg::Shutdown)
+    matches!(m, Msg::Initialize | Msg::Supported | Msg::UnknownRequest | Msg::DollarRequest | Msg::Shutdown)
 }
 
 /// JSON for message #i of a history (ids = index + 1)
@@ -71,6 +75,7 @@ pub fn to_json(m: Msg, i: usize) -> Value {
         Msg::Initialized => notification("initialized", json!({})),
         Msg::Supported => request(id, "textDocument/foldingRange", json!({"textDocument": {"uri": URI}})),
         Msg::UnknownRequest => request(id, "workspace/unknownThing", json!({})),
+        Msg::DollarRequest => request(id, "$/unknownRequest", json!({"x": 1})),
         Msg::DocNotification => notification("textDocument/didOpen", json!({"textDocument": {"uri": URI, "languageId": "spl", "version": 1, "text": "proc main() { }\n"}})),
         Msg::UnknownNotification => notification("$/unknownNote", json!({"x": 1})),
         Msg::Shutdown => request(id, "shutdown", Value::Null),
@@ -101,7 +106,7 @@ pub fn expect(history: &[Msg]) -> Expectation {
                 // the property is silent about other requests between initialize and
                 // initialized: rejected as not (yet) initialised, or served
                 Msg::Supported => responses.push((id, vec![Answer::Error(SERVER_NOT_INITIALIZED), Answer::Served])),
-                Msg::UnknownRequest => responses.push((id, vec![Answer::Error(SERVER_NOT_INITIALIZED), Answer::Error(METHOD_NOT_FOUND)])),
+                Msg::UnknownRequest | Msg::DollarRequest => responses.push((id, vec![Answer::Error(SERVER_NOT_INITIALIZED), Answer::Error(METHOD_NOT_FOUND)])),
                 Msg::Shutdown => {
                     // either rejected (and the phase stays) or accepted: both continuations are
                     // explored by `expect_alternatives`; the default model takes "rejected"
@@ -112,7 +117,7 @@ pub fn expect(history: &[Msg]) -> Expectation {
             Phase::Running => match m {
                 Msg::Initialize => responses.push((id, vec![Answer::Error(INVALID_REQUEST)])),
                 Msg::Supported => responses.push((id, vec![Answer::Served])),
-                Msg::UnknownRequest => responses.push((id, vec![Answer::Error(METHOD_NOT_FOUND)])),
+                Msg::UnknownRequest | Msg::DollarRequest => responses.push((id, vec![Answer::Error(METHOD_NOT_FOUND)])),
                 Msg::Shutdown => {
                     responses.push((id, vec![Answer::NullResult]));
                     phase = Phase::ShuttingDown;
@@ -198,6 +203,7 @@ pub fn class_string(h: &[Msg]) -> String {
             Msg::Initialized => "i",
             Msg::Supported => "R",
             Msg::UnknownRequest => "U",
+            Msg::DollarRequest => "$",
             Msg::DocNotification => "D",
             Msg::UnknownNotification => "n",
             Msg::Shutdown => "S",
